@@ -24,6 +24,8 @@ def _engine(F, visits, extra_inline=None):
     def pol(fn, ev):
         if sym.inline_consts(fn, ev):
             return True
+        if fn.crate == "postcard_dyn" and fn.name in ("take_one", "take_n"):
+            return False          # the byte source of the dynamic decoder (a trait method or a free function): always a call
         if fn.crate in ("postcard", "postcard_dyn") and not (fn.impl_trait or ""):
             # integer helpers built from smaller private helpers (a shared widened encoder, a raw reader): analysed in place
             return True
@@ -227,6 +229,13 @@ def check_zigzag_dec(F, fn):
 class ByteSource:
     """How a reader obtains its bytes. postcard: `self.flavor.pop()`; dyn: `rest.take_one()` with the rest threaded."""
 
+    def matches(self, e):
+        if e.get("key") == self.key:
+            return True
+        # the dyn byte source by role (canonical name, whatever trait or module carries it)
+        c = e.get("callee") or {}
+        return self.key.startswith("postcard_dyn::") and c.get("krate") == "postcard_dyn" and e.get("name") == self.key.rsplit("::", 1)[-1]
+
     def __init__(self, key, err_variant, byte_of, threaded=False, rest_of=None):
         self.key = key
         self.err_variant = err_variant
@@ -257,9 +266,9 @@ def check_reader(F, fn, N, src=POP, value_of_ret=None):
     classes = set()
     for p, b in fps:
         _no_panics(p, b, fn.name)
-        pops = [e for e in p.events if e["k"] == "call" and e["key"] == src.key]
+        pops = [e for e in p.events if e["k"] == "call" and src.matches(e)]
         other = [e for e in p.events if e["k"] == "call" and not e.get("modelled") and not e.get("inlined")
-                 and e["key"] != src.key]
+                 and not src.matches(e)]
         if other:
             raise No("unexpected call to %s" % other[0]["key"])
         j = len(pops)
